@@ -31,14 +31,23 @@ import rustscan  # noqa: E402
 REPO = "/repo"
 
 
-def contracted_functions(units):
+def contracted_functions(units, prop=None):
     out = {}
     for u in units:
         name = os.path.basename(u).replace(".vx.rs", "")
+        unit_props = []
         for ln in open(u):
+            up = re.match(r"//@props\s+(.*)$", ln)
+            if up:
+                unit_props = up.group(1).split()
             m = re.match(r"//@fn (\S+) :: (.*?) :: (\w+)(.*)", ln)
             if not m or "mode=trusted" in m.group(4):
                 continue
+            if prop:
+                pm = re.search(r"props=([\w,]+)", m.group(4))
+                fprops = pm.group(1).split(",") if pm else unit_props
+                if prop not in fprops:
+                    continue
             key = (m.group(1), m.group(2).strip(), m.group(3))
             out.setdefault(key, set()).add(name)
     return out
@@ -210,12 +219,16 @@ def main():
     ap.add_argument("--jobs", type=int, default=12)
     ap.add_argument("--limit", type=int, default=0)
     ap.add_argument("--out", default="/tmp/mutsweep.json")
+    ap.add_argument("--prop", help="only functions whose //@fn line lists this property")
+    ap.add_argument("--sample", type=int, default=0, help="keep at most N mutants, evenly spread (deterministic)")
+    ap.add_argument("--kinds", help="comma list of mutation kinds to keep")
+    ap.add_argument("--quiet", action="store_true")
     a = ap.parse_args()
     units = sorted(glob.glob(os.path.join(VERIF, "vx", "units", "*.vx.rs")))
     if a.units:
         want = set(a.units.split(","))
         units = [u for u in units if os.path.basename(u).replace(".vx.rs", "") in want]
-    fns = contracted_functions(units)
+    fns = contracted_functions(units, a.prop)
     files = {}
     muts = []
     for (relfile, ctx, name), us in sorted(fns.items()):
@@ -234,8 +247,14 @@ def main():
                 continue
             seen.add((off, new))
             muts.append((relfile, off, old, new, kind, "%s::%s" % (ctx, name), us))
+    if a.kinds:
+        ks = set(a.kinds.split(","))
+        muts = [m for m in muts if m[4] in ks]
     if a.limit:
         muts = muts[:a.limit]
+    if a.sample and len(muts) > a.sample:
+        step = len(muts) / float(a.sample)
+        muts = [muts[int(i * step)] for i in range(a.sample)]
     print("%d mutants over %d functions" % (len(muts), len(fns)), flush=True)
     scratch = tempfile.mkdtemp(prefix="vx-mutsweep-")
     results = []
@@ -261,10 +280,10 @@ def main():
         with cf.ThreadPoolExecutor(max_workers=a.jobs) as ex:
             for n, rec in enumerate(ex.map(run_one, enumerate(muts))):
                 results.append(rec)
-                if rec["verdict"] != "killed":
+                if rec["verdict"] != "killed" and not a.quiet:
                     print("%s %s:%d %s [%s] %r -> %r | %s" % (rec["verdict"].upper(), rec["file"], rec["line"], rec["fn"],
                           rec["kind"], rec["old"], rec["new"], rec["context"]), flush=True)
-                if (n + 1) % 50 == 0:
+                if (n + 1) % 50 == 0 and not a.quiet:
                     print("... %d/%d" % (n + 1, len(muts)), flush=True)
     finally:
         shutil.rmtree(scratch, ignore_errors=True)
